@@ -445,6 +445,35 @@ ALLOWED_INDEX_WRITERS = {
 }
 
 
+_EFFECTS_CACHE = {}
+
+
+def _escaping_write(eng, fi, node):
+    """public functions (no leading underscore, not nested) whose A-EFFECT summary contains this very store"""
+    from ..effects import Effects
+
+    E = _EFFECTS_CACHE.get(id(eng))
+    if E is None:
+        E = _EFFECTS_CACHE[id(eng)] = Effects(eng)
+    st = node
+    while st is not None and not isinstance(st, ast.stmt):
+        st = getattr(st, "_parent", None)
+    out = []
+    for g in eng.prog.all_functions():
+        if g.parent is not None:
+            continue
+        public = not g.name.startswith("_") or (g.name.startswith("__") and g.name.endswith("__"))
+        if not public:
+            continue
+        for eff in E.mut.get(g.qualname, ()):  # (root, path)
+            if node.attr not in eff[1]:
+                continue
+            if any(s_ is st for _, s_ in E.sites.get((g.qualname, eff), [])):
+                out.append(f"{g.qualname} ({eff[0]}.{'.'.join(eff[1])})")
+                break
+    return out
+
+
 def index_writers(eng, res, rule="R-INDEX-WRITERS"):
     """Who may write a descriptor's atom / node index: the parser (once) and the attachment shift. Any other writer
     changes which atom a bond will be made to behind the back of the rules above."""
@@ -456,8 +485,15 @@ def index_writers(eng, res, rule="R-INDEX-WRITERS"):
                 res.unit(fi)
                 owner = fi.outermost().qualname
                 ok = owner in ALLOWED_INDEX_WRITERS[node.attr]
-                res.ob(rule, fi, f"write:{node.attr}:{owner}", f"`{node.attr}` of a descriptor is written only by the parser and by the attachment shift", node, ok,
-                       f"{fi.qualname} rewrites {src(node)}: the index the parser recorded (the atom the notation designates) is altered outside attach_other")
+                why = f"{fi.qualname} rewrites {src(node)}: the index the parser recorded (the atom the notation designates) is altered outside attach_other"
+                if not ok:
+                    # another writer is harmless exactly when the object it writes is private to it: the effect must not
+                    # reach any object a public function received or holds (A-EFFECT: it dies on a fresh deep copy)
+                    esc = _escaping_write(eng, fi, node)
+                    ok = not esc
+                    if esc:
+                        why += f"; the written descriptor is reachable from {esc[0]} (not a private copy)"
+                res.ob(rule, fi, f"write:{node.attr}:{owner}", f"`{node.attr}` of a descriptor is written only by the parser and by the attachment shift (or on a private deep copy)", node, ok, why)
     # setattr-style writes are excluded by the census
     return n
 
